@@ -208,6 +208,79 @@ def sym_bytearray(x=b"", *a):
 
 
 # ---------------------------------------------------------------------------
+# Placeholder strings.  CPython forces str()/format()/f-strings/print to produce a REAL str.  A harness
+# may opt in (placeholders_begin(), once per path) to have symbolic code points represented inside real
+# strings by code points of the unassigned planes 4..13 that index a per-path registry; whoever receives
+# the text (a fake file of the harness) maps it back with resolve_str().  Sound as long as the code
+# between formatting and the receiver treats the text as opaque (concatenation, slicing, writing): the
+# placeholder code points are no whitespace, no digits and have no case mapping.
+_PH = {"on": False, "tab": []}
+_PH_BASE = 0x40000
+_PH_END = 0xE0000
+
+
+def placeholders_begin():
+    _PH["on"] = True
+    _PH["tab"] = []
+
+
+def placeholders_end():
+    _PH["on"] = False
+    _PH["tab"] = []
+
+
+def ph_encode(cps):
+    tab = _PH["tab"]
+    out = []
+    for c in cps:
+        if type(c) is SymInt:
+            k = _PH_BASE + len(tab)
+            if k >= _PH_END:
+                raise SymbolicEscape("placeholder registry exhausted")
+            tab.append(c)
+            out.append(chr(k))
+        else:
+            out.append(chr(c))
+    return "".join(out)
+
+
+def resolve_str(s):
+    """real str possibly containing placeholders -> str / SymStr (identity on everything else)"""
+    if type(s) is not str:
+        return s
+    tab = _PH["tab"]
+    if not tab:
+        return s
+    n = len(tab)
+    cps = []
+    for ch in s:
+        o = ord(ch)
+        cps.append(tab[o - _PH_BASE] if _PH_BASE <= o < _PH_BASE + n else o)
+    return SymStr.make(cps)
+
+
+def _ascii_case(c, first, delta):
+    """str.upper()/lower() on one (possibly symbolic) ASCII code point, no fork"""
+    if type(c) is not SymInt:
+        ch = chr(c)
+        return ord(ch.upper() if delta < 0 else ch.lower()) if c < 128 else _non_ascii_case(ch, delta)
+    if c.hi > 127:
+        raise SymbolicEscape("case mapping of a symbolic non-ascii character")
+    if c.hi < first or c.lo > first + 25:
+        return c
+    r = core.ite(sym_and(c >= first, c <= first + 25), c + delta, c)
+    if type(r) is SymInt and type(c.tag) is tuple and c.tag[0] == "hexdigit":
+        r.tag = c.tag      # still the hex digit of the same nibble (int(.,16) is case-insensitive)
+    return r
+
+
+def _non_ascii_case(ch, delta):
+    r = ch.upper() if delta < 0 else ch.lower()
+    if len(r) != 1:
+        raise SymbolicEscape("length-changing case mapping")
+    return ord(r)
+
+
 class SymStr:
     """string of concrete length with possibly symbolic code points"""
 
@@ -281,6 +354,15 @@ class SymStr:
     def __lt__(self, o):
         return self._lex(o) < 0
 
+    def __le__(self, o):
+        return self._lex(o) <= 0
+
+    def __gt__(self, o):
+        return self._lex(o) > 0
+
+    def __ge__(self, o):
+        return self._lex(o) >= 0
+
     def _lex(self, o):
         oc = self._cps(o)
         for a, b in zip(self.cps, oc):
@@ -292,10 +374,23 @@ class SymStr:
     def __repr__(self):
         return "<symstr len=%d>" % len(self.cps)
 
-    __str__ = __repr__
+    def __str__(self):
+        # str()/print()/f-strings must hand back a real str: with placeholders enabled (opt-in by the
+        # harness) the symbolic code points survive as registry references, see placeholders_begin()
+        if _PH["on"]:
+            return ph_encode(self.cps)
+        return "<symstr len=%d>" % len(self.cps)
 
     def __format__(self, spec):
+        if _PH["on"] and spec == "":
+            return ph_encode(self.cps)
         return "<symstr>"
+
+    def upper(self):
+        return SymStr.make([_ascii_case(c, 97, -32) for c in self.cps])
+
+    def lower(self):
+        return SymStr.make([_ascii_case(c, 65, 32) for c in self.cps])
 
     def startswith(self, p, start=0):
         pc = self._cps(p)
